@@ -35,4 +35,10 @@ def run(tier, seed):
         'not decided: UB that depends on run-time numerics; subscripts with data-dependent indices listed under '
         '"NOT decided"; anything inside GSL/libstdc++',
     ]
+    # a stale/NaN field of the parameter block reaching decay0_bb turns into a negative spectrum index (spthe1[imax..-1] written):
+    # the block's fields are assigned before they are read in every initialising call (shared with C04)
+    from .. import tvcheck
+    from ..rules import bbstate
+    nst = bbstate.check(rep, tvcheck.Context())
+    rep.floor('STATE.def-before-use', nst, 90)
     return rep
